@@ -14,8 +14,9 @@
      sg v                         -1 if v > 0 else 1 : the factor that makes a peak of value v point down
      within_half pv v             v is back within half of the peak value pv (0 < pv: 2v < pv;  pv < 0: pv < 2v)
    Domain: all integer-valued waveforms of every size (no bound on T, C or the values). *)
-From Coq Require Import ZArith List Bool Lia.
+From Coq Require Import ZArith List Bool Lia Reals.
 From IBL.C14 Require Import Model Proofs.
+From IBL.C14 Require Float.
 Import ListNotations.
 Open Scope Z_scope.
 
@@ -205,6 +206,16 @@ Theorem C14_derived_columns : forall k w T C f, rect w T C -> features1 k w = So
 Proof. exact pub_derived. Qed.
 Print Assumptions C14_derived_columns.
 
+(* The only float rounding that decides an index: the swap test
+   abs(peak_val / trough_val) <= 1.5.  With binary64 round-to-nearest-even division
+   (Flocq: rnd64 (a / b)) of integer-valued samples, |trough| < 2^52, the test is
+   true exactly when the model's exact test 2|peak| <= 3|trough| is.
+   (Uses the standard library's real-number axioms, listed by Print Assumptions.) *)
+Theorem C14_ratio_test_float64 : forall pv tv : Z, tv <> 0 -> Z.abs tv < 2 ^ 52 ->
+  ((Rabs (Float.rnd64 (IZR pv / IZR tv)) <= 3 / 2)%R <-> ratio_le_15 pv tv = true).
+Proof. exact Float.ratio_test_float64. Qed.
+Print Assumptions C14_ratio_test_float64.
+
 (* ---- the hypotheses are satisfiable on non-trivial inputs ---- *)
 (* a negative spike on channel 1 of 2, with a NaN-padded sample *)
 Definition ex_w : list (list (option Z)) :=
@@ -244,3 +255,42 @@ Proof. vm_compute. auto. Qed.
 Example ex_padding : features1 5 (insert_nan_channel 0 ex_w) = Some (mkF 2 2 (-30) 1 4 12 1 2 3 1 (-8) 2 9 0)
   /\ weights1 ex_w = Some [3; -30].
 Proof. vm_compute. auto. Qed.
+
+(* ---- round 3: every hypothesis used above is satisfiable on these concrete inputs ---- *)
+Example ex_rect : rect ex_w 10 2 /\ rect ex_w2 10 2 /\ rect wit 12 1 /\ rect (insert_nan_channel 0 ex_w) 10 3.
+Proof.
+  repeat split; try reflexivity; intros row Hin;
+    repeat (destruct Hin as [<-|Hin]; [reflexivity|]); destruct Hin.
+Qed.
+(* guard of C14_features_total: sample (2, 1) exceeds every first-row sample *)
+Example ex_total_guard : (1 <= 2)%nat /\ (5 < 10)%nat /\
+  exists t c, (1 <= t < 10)%nat /\ (c < 2)%nat /\
+    forall c', (c' < 2)%nat -> Z.abs (smp ex_w 0 c') < Z.abs (smp ex_w t c).
+Proof.
+  split; [lia|]. split; [lia|]. exists 2%nat, 1%nat. split; [lia|]. split; [lia|].
+  intros c' Hc'. do 2 (destruct c' as [|c']; [vm_compute; reflexivity|]). lia.
+Qed.
+(* hypothesis of C14_nan_channel_never_peak: channel 0 of the padded waveform is NaN throughout,
+   and the call succeeds with peak channel 2 (ex_padding) *)
+Example ex_nan_channel : forall t, (t < 10)%nat -> nth 0 (nth t (insert_nan_channel 0 ex_w) []) None = None.
+Proof. intros t Ht. do 10 (destruct t as [|t]; [reflexivity|]). lia. Qed.
+(* hypotheses of C14_channel_permutation: ex_w with its two channels exchanged *)
+Definition ex_w_swapped : list (list (option Z)) := map (fun row => [nth 1 row None; nth 0 row None]) ex_w.
+Definition ex_sigma (c : nat) : nat := (1 - c)%nat.
+Example ex_permutation_hyps :
+  rect ex_w_swapped 10 2 /\
+  (forall c, (c < 2)%nat -> (ex_sigma c < 2)%nat /\ (ex_sigma c < 2)%nat /\
+                            ex_sigma (ex_sigma c) = c /\ ex_sigma (ex_sigma c) = c) /\
+  (forall t c, (t < 10)%nat -> (c < 2)%nat -> smp ex_w_swapped t c = smp ex_w t (ex_sigma c)) /\
+  (forall t c, (t < 10)%nat -> (c < 2)%nat -> c <> 1%nat -> Z.abs (smp ex_w t c) < Z.abs (smp ex_w 2 1)) /\
+  features1 5 ex_w_swapped = option_map (with_trace (ex_sigma 1)) (features1 5 ex_w).
+Proof.
+  split; [|split; [|split; [|split]]].
+  - split; [reflexivity|]. intros row Hin. repeat (destruct Hin as [<-|Hin]; [reflexivity|]). destruct Hin.
+  - intros c Hc. do 2 (destruct c as [|c]; [vm_compute; repeat split; lia|]). lia.
+  - intros t c Ht Hc.
+    do 10 (destruct t as [|t]; [do 2 (destruct c as [|c]; [vm_compute; reflexivity|]); lia|]). lia.
+  - intros t c Ht Hc Hn. destruct c as [|c]; [|lia].
+    do 10 (destruct t as [|t]; [vm_compute; reflexivity|]). lia.
+  - vm_compute. reflexivity.
+Qed.
